@@ -9,8 +9,10 @@ import (
 	"encoding/binary"
 	"encoding/hex"
 	"fmt"
+	"runtime"
 	"strconv"
 	"strings"
+	"sync"
 
 	"github.com/protolambda/zrnt/eth2/beacon/common"
 
@@ -213,6 +215,14 @@ func gen(o hreg.Opts, w *bufio.Writer) error {
 			}
 		}
 	}
+	// P. the same list operations from several goroutines at once (each on its own slice, its own seed): ordinary use
+	// when sibling states are processed in parallel; the results must be what the sequential calls give
+	for i, n := range []int{257, 1000, 3000, 513, 2048} {
+		st.Add("op", "par")
+		st.Add("par-workers", strconv.Itoa(8+4*(i%3)))
+		s := seeds[i%nseeds]
+		fmt.Fprintf(w, "par %d %d %d %d %s\n", 8+4*(i%3), o.Pick(300, 3000), n, []int{10, 10, 3, 90, 10}[i], hex.EncodeToString(s[:]))
+	}
 	// D. single calls: in-domain large sizes, and outside the documented domain
 	m := o.Pick(300, 5000)
 	maxU := ^uint64(0)
@@ -288,6 +298,59 @@ func pu(s string) (uint64, bool) {
 	return v, err == nil
 }
 
+// parallelLists runs, in `workers` goroutines released together, `reps` times: ShuffleList and UnshuffleList of
+// [0,n) with the worker's own seed (seed with its first byte xor-ed with the worker number) on the worker's own
+// slices. Answer: per worker the digests of the two results, or `unstable` if some repetition gave a different
+// result than the first one. Deterministic when the code under test is free of shared mutable state.
+func parallelLists(workers, reps int, n uint64, rounds uint8, seed common.Root) string {
+	if runtime.GOMAXPROCS(0) < 4 {
+		defer runtime.GOMAXPROCS(runtime.GOMAXPROCS(4))
+	}
+	out := make([]string, workers)
+	start := make(chan struct{})
+	var wg sync.WaitGroup
+	for g := 0; g < workers; g++ {
+		wg.Add(1)
+		go func(g int) {
+			defer wg.Done()
+			defer func() {
+				if r := recover(); r != nil {
+					out[g] = "panic"
+				}
+			}()
+			sd := seed
+			sd[0] ^= byte(g)
+			a := make([]common.ValidatorIndex, n)
+			b := make([]common.ValidatorIndex, n)
+			first := ""
+			stable := true
+			<-start
+			for r := 0; r < reps; r++ {
+				for i := range a {
+					a[i] = common.ValidatorIndex(i)
+					b[i] = common.ValidatorIndex(i)
+				}
+				common.ShuffleList(rounds, a, sd)
+				common.UnshuffleList(rounds, b, sd)
+				cur := "s=" + fmtList(a) + " u=" + fmtList(b)
+				if r == 0 {
+					first = cur
+				} else if cur != first {
+					stable = false
+				}
+			}
+			if stable {
+				out[g] = first
+			} else {
+				out[g] = "unstable"
+			}
+		}(g)
+	}
+	close(start)
+	wg.Wait()
+	return "ok " + strings.Join(out, " ; ")
+}
+
 func exec(o hreg.Opts, sc *bufio.Scanner, w *bufio.Writer) error {
 	for sc.Scan() {
 		f := hreg.Fields(sc.Text())
@@ -312,6 +375,16 @@ func exec(o hreg.Opts, sc *bufio.Scanner, w *bufio.Writer) error {
 				common.UnshuffleList(uint8(rounds), b, seed)
 				return "ok s=" + fmtList(a) + " u=" + fmtList(b)
 			})
+		case len(f) == 6 && f[0] == "par":
+			workers, ok1 := pu(f[1])
+			reps, ok2 := pu(f[2])
+			n, ok3 := pu(f[3])
+			rounds, ok4 := pu(f[4])
+			seed, ok5 := parseSeed(f[5])
+			if !(ok1 && ok2 && ok3 && ok4 && ok5) || rounds > 255 || n > 100000 || workers == 0 || workers > 64 || reps == 0 || reps > 100000 {
+				break
+			}
+			res = parallelLists(int(workers), int(reps), n, uint8(rounds), seed)
 		case len(f) == 4 && f[0] == "idx":
 			n, ok1 := pu(f[1])
 			rounds, ok2 := pu(f[2])
